@@ -136,16 +136,16 @@ type hConn struct {
 	connected bool
 	sent      []*Envelope
 	softFlag  []bool
-	sendErr   error
+	sendFails bool // symbolic: decided only when Send is called
 }
 
 func (c *hConn) Peer() transport.Peer  { return c.peer }
 func (c *hConn) IsConnected() bool     { return c.connected }
 func (c *hConn) IsAuthenticated() bool { return c.peer.Authenticated }
 func (c *hConn) Send(_ grpc.Protocol, envelope interface{}, ignoreSoftLimit bool) error {
-	if c.sendErr != nil {
+	if c.sendFails {
 		// contract of grpc.Connection.Send: on error the message is dropped
-		return c.sendErr
+		return errors.New("harness: outbox full / protocol not connected")
 	}
 	c.sent = append(c.sent, envelope.(*Envelope))
 	c.softFlag = append(c.softFlag, ignoreSoftLimit)
